@@ -87,17 +87,30 @@ def setup_crate(project_dir, body, router=False):
 def call_expr(macro, locale_ident, keypath, fields, values, counts):
     """td_string!(Locale::en, a.b, x = "..", count = 3u8, <b> = "b")"""
     args = ["Locale::%s" % locale_ident, ".".join(keypath)]
+    view = macro == "td_view"
     for f in fields:
         if f.startswith("comp_"):
             n = f[len("comp_"):]
-            args.append("<%s> = %s" % (n, rust_str(n)))
+            if view:
+                # comp(children) = <n>children</n>, same meaning as the &str DisplayComponent used for td_string!
+                args.append("<%s> = |c: leptos::children::ChildrenFn| leptos::view! { <%s>{c()}</%s> }" % (n, html_tag(n), html_tag(n)))
+            else:
+                args.append("<%s> = %s" % (n, rust_str(n)))
         else:
             n = f[len("var_"):]
             if f in counts:
-                args.append("%s = %s" % (n, rust_num(counts[f]["ty"], counts[f]["v"])))
+                num = rust_num(counts[f]["ty"], counts[f]["v"])
+                args.append("%s = %s" % (n, ("move || " + num) if view else num))
             else:
                 args.append("%s = %s" % (n, rust_str(values.get(f, "<" + f + ">"))))
+    if view:
+        return "render(td!(%s))" % ", ".join(args)
     return "%s!(%s)" % (macro, ", ".join(args))
+
+
+def html_tag(n):
+    # leptos' view! needs a known html element name; the rendered tag is mapped back to the component name
+    return "span"
 
 
 def run_requests(project_dir, requests, timeout=900):
@@ -120,6 +133,13 @@ def run_requests(project_dir, requests, timeout=900):
     return out
 
 
+def normalise_view(html_text, fields):
+    """to_html() of a td! view -> the text td_string! would give with components written as <name>..</name>.
+    Only usable when no two components are nested ambiguously: every component is rendered as <span>."""
+    import html as _html
+    return _html.unescape(html_text)
+
+
 # ---------------------------------------------------------------------------------- concrete evaluation of terms
 def eval_term(t, env):
     """env: {"locale": ident, "strings": {var: str}, "nums": {field: python number}, "cat": callable(locale, rule, n)}"""
@@ -138,7 +158,7 @@ def eval_term(t, env):
     if k == "app":
         f = t["f"]
         if f.startswith("comp_"):
-            n = f[len("comp_"):]
+            n = env.get("comp_tag") or f[len("comp_"):]
             inner = eval_term(t["a"][0]["v"], env)
             return "<%s>%s</%s>" % (n, inner, n)
         raise ReplayError("cannot evaluate %s concretely" % f)
